@@ -165,6 +165,22 @@ func Keys() []Key {
 		for i := 0; i < 8; i++ {
 			add(fmt.Sprintf("d=chain%d", i), HashChain("verif/c06/key", i+1))
 		}
+		// public keys whose coordinates have a leading zero byte in exactly one place (x only, y only): ZA hashes both
+		// coordinates at fixed width, the shape a variable-width or shared-scratch encoding gets wrong. Smallest such d.
+		lim := new(big.Int).Lsh(big.NewInt(1), 248)
+		var xlz, ylz bool
+		for d := int64(3); d < 20000 && !(xlz && ylz); d++ {
+			p := g.Mul(big.NewInt(d))
+			xs, ys := p.X.Cmp(lim) < 0, p.Y.Cmp(lim) < 0
+			if xs && !ys && !xlz {
+				xlz = true
+				add("d=pub-x-leading-zero", big.NewInt(d))
+			}
+			if ys && !xs && !ylz {
+				ylz = true
+				add("d=pub-y-leading-zero", big.NewInt(d))
+			}
+		}
 	})
 	return keys
 }
